@@ -137,7 +137,11 @@ def add_contract(ctx):
     patches = ["s1"] if keyed == "slave" else []
     existing = [vl.add(Point(p), list(patches)) for p in pts]
     ctx.prove("distinct-points-get-distinct-vertices", len(vl.vertices) == m and [v.index for v in vl.vertices] == list(range(m)))
-    x = ctx.vec("x")
+    def close_to(rng):  # bounded tier: a point within TOL/2 of vertex `near` (uniform draws never are)
+        d = np.array([rng.gauss(0, 1) for _ in range(3)])
+        return np.asarray(pts[near - 1], dtype=float) + d / np.linalg.norm(d) * rng.uniform(0, 0.49 * TOL)
+
+    x = ctx.vec_from("x", close_to) if near >= 1 else ctx.vec("x")
     for i in range(m):
         if near == i + 1:
             ctx.assume(G.dist2(x, pts[i]) < tol * tol / 4)
